@@ -173,7 +173,7 @@ type refResp struct {
 	Priv    []byte
 	PadB    []byte
 	PadDLen int
-	Lookup  func(h [20]byte) []byte  // SKEY for HASH('req2', SKEY); nil result: unknown
+	Lookup  func(h [20]byte) []byte     // SKEY for HASH('req2', SKEY); nil result: unknown
 	Select  func(provide uint32) uint32 // raw value put on the wire, may be illegal
 }
 
